@@ -3,6 +3,7 @@ import CodeLimit.Props.C16
 import CodeLimit.Lemmas.ProgText
 import CodeLimit.Model.ProgTreeOps
 import CodeLimit.Lemmas.ScanEval
+import CodeLimit.Lemmas.Compose
 /-!
 # C01, stage T: from a program tree to source TEXT, the lexer contract and `_analyze_file`
 
@@ -26,7 +27,12 @@ Results, for EVERY forest:
   type, text, line and column for every token; `text_at_rendered_location`,
   `text_nonblank`, `text_ends_with_newline` describe the text without reference to `lex`;
 * T3 `analyze_of_tree_text_partial` - with stage G: `_analyze_file` on the text returns the tree
-  report and its total;
+  report and its total (`_partial`: conditional on header discovery; unconditional for the canonical
+  fragments in `Props/C01marktext.lean`: `analyze_of_fragment_tree_text`);
+* `lex_of_tiling` - T2 for ANY raw stream that tiles the text and has the same non-whitespace
+  tokens (the result does not depend on how the lexer splits the gaps);
+  `end_location_is_text_end` - the END location of the specification (`Tok.endPos_L`) is the
+  (line, column) of the text offset just past the token;
 * T4 `treeOp_sound` - the driver operation `tree` (`Model/ProgTreeOps.lean`): if the five flags
   it reports are all true, `_analyze_file` on the returned text and raw stream returns the
   returned report.
@@ -105,6 +111,49 @@ theorem lex_of_tree_text {p : Prog PTok} (hs : p.Spaced = true) (hw : p.noWs = t
   exact lex_rawFrom p.flat [] (1, 0) 1 0 0 (textOf p) true rfl rfl rfl rfl (Or.inr (Nat.le_refl _))
     hs hw (fun _ _ _ => rfl)
 
+/-- a raw token that `lex` drops: a `Text` / `Whitespace` token that is empty or blank -/
+def _root_.CL.RawTok.isWs (r : RawTok) : Bool := r.kind == 6 && (r.val.isEmpty || strIsSpace r.val)
+
+/-- `lex` keeps exactly the raw tokens that are not whitespace, each at the line and column of its
+offset - for EVERY raw stream that tiles the text -/
+theorem lex_eq_nonWs {code : Str} {raw : List RawTok} (h : RawOk code raw) :
+    lex code raw false = (raw.filter (fun r => !r.isWs)).map (tokAt code) := by
+  unfold lex
+  rw [filterTokens_eq, C16.lexAll_positions h, List.filter_map]
+  congr 1
+  apply List.filter_congr
+  intro r _
+  simp only [keepTok, Function.comp, Tok.isWhitespace, CL.RawTok.isWs, Bool.not_false]
+  by_cases hws : (r.kind == 6 && (r.val.isEmpty || strIsSpace r.val)) = true
+  · rw [if_pos hws, hws]; rfl
+  · rw [if_neg hws]
+    simp only [Bool.not_eq_true] at hws
+    rw [hws]
+    split <;> rfl
+
+/-- **T2 does not depend on how the lexer splits the gaps.**  `rawOf p` has ONE whitespace token per
+gap; a real lexer emits a newline token, an indentation token, ...  Let `raw` be ANY raw stream that
+tiles the text of the forest (`RawOk`) and has the same non-whitespace tokens as `rawOf p` (same
+offsets, kinds, types, texts, in the same order).  Then `lex` on it returns the rendering, too. -/
+theorem lex_of_tiling {p : Prog PTok} (hs : p.Spaced = true) (hw : p.noWs = true)
+    {raw : List RawTok} (hraw : RawOk (textOf p) raw)
+    (hsame : raw.filter (fun r => !r.isWs) = (rawOf p).filter (fun r => !r.isWs)) :
+    lex (textOf p) raw false = render p := by
+  rw [lex_eq_nonWs hraw, hsame, ← lex_eq_nonWs (rawOk_text p), lex_of_tree_text hs hw]
+
+/-- non-vacuity of `lex_of_tiling`: the text `a⏎  b⏎`; `rawOf` has ONE whitespace token `⏎··` for
+the gap, the stream below splits it into a newline token and an indentation token (as Pygments
+does); it tiles the text, has the same non-whitespace tokens, and `lex` returns the rendering -/
+example :
+    let p : Prog PTok := .leaf ⟨2, 2, [97], 0, 0⟩ (.leaf ⟨2, 2, [98], 1, 2⟩ .nil)
+    let raw : List RawTok :=
+      [⟨0, 2, 2, [97]⟩, ⟨1, 6, 0, [10]⟩, ⟨2, 6, 0, [32, 32]⟩, ⟨4, 2, 2, [98]⟩, ⟨5, 6, 0, [10]⟩]
+    textOf p = [97, 10, 32, 32, 98, 10] ∧ raw ≠ rawOf p ∧ RawOk (textOf p) raw ∧
+      lex (textOf p) raw false = render p := by
+  intro p raw
+  refine ⟨by decide, by decide, by decide, ?_⟩
+  exact lex_of_tiling (p := p) (by decide) (by decide) (by decide) (by decide)
+
 /-- the same with `filter_comments = True`, for forests of code tokens -/
 theorem lex_of_tree_text_code {p : Prog PTok} (hs : p.Spaced = true)
     (hc : p.bare.allCode = true) (fc : Bool) :
@@ -181,9 +230,37 @@ theorem textFrom_getLast : ∀ (l : List PTok) (s : Nat × Nat) (e : Nat),
 theorem text_ends_with_newline (p : Prog PTok) : (textOf p).getLast? = some 10 :=
   textFrom_getLast p.flat (1, 0) 1
 
+/-- **The expected END location of the specification is the end of the token in the TEXT.**
+`Tok.endPos_L` (`Spec/Layout.lean`, used by `expected` / `treeReport`) is defined on the token's own
+text (its line, its column, the line breaks inside it).  For a token that `lex` places (`tokAt`) from
+a raw token of a stream tiling the text, it is the (line, column) of the offset just past the token
+(`lineOf` / `colOf` of `Spec/Lex.lean`, which count newlines in the text), and `location_to_index`
+maps it back to that offset - also for tokens over several lines. -/
+theorem end_location_is_text_end {code : Str} {raw : List RawTok} (h : RawOk code raw) :
+    ∀ r ∈ raw, r.off + r.val.length ≤ code.length ∧
+      Tok.endPos_L (tokAt code r)
+        = (lineOf code (r.off + r.val.length), colOf code (r.off + r.val.length)) ∧
+      locationToIndex code (Tok.endPos_L (tokAt code r)).1 (Tok.endPos_L (tokAt code r)).2
+        = .ok (r.off + r.val.length) := by
+  intro r hr
+  obtain ⟨_, hb, ht⟩ := RawOkFrom.text (pre := []) h rfl r hr
+  simp only [List.nil_append] at hb ht
+  have he : Tok.endPos_L (tokAt code r)
+      = (lineOf code (r.off + r.val.length), colOf code (r.off + r.val.length)) :=
+    Compose.endPos_tokAt code r ht
+  refine ⟨hb, he, ?_⟩
+  rw [he]
+  exact locationToIndex_lineOf_colOf code _ hb
+
+/-- the two definitions of "just past the end of a token" (`Spec/Layout.lean`, `Spec/Scan.lean`)
+are the same function -/
+theorem endPos_L_eq_endPos (t : Tok) : Tok.endPos_L t = t.endPos := rfl
+
 /-! ## T3: `_analyze_file` on the text -/
 
-/-- **T3 (partial: needs `noAdj`, as stage G).**  Let `p` be a forest of tokens without
+/-- **T3 (`_partial`: conditional on header discovery `hh` / `hperm`, as stage G; needs `noAdj`).**
+The unconditional versions for the canonical fragments: `C01marktext.analyze_of_fragment_tree_text`,
+`C01marktext.analyze_of_canon_tree_text`.  Let `p` be a forest of tokens without
 locations that is structurally well-formed (`wfCore`), has no function directly followed by a
 brace group (`noAdj`), consists of code tokens (`allCode`) and whose layout is `Spaced`.  If the
 header extraction of a brace-block language `L` finds the headers of the function nodes in the
@@ -219,7 +296,10 @@ theorem discovery_iff {L : Language} {p : Prog PTok} :
 all true (the forest is well-formed, has no adjacent block, consists of code tokens, is spaced,
 and header discovery finds the function nodes), then `_analyze_file` of the model, applied to
 the text and the raw stream of the reply, returns the report of the reply (which was read off
-the tree) and its total. -/
+the tree) and its total.  The fifth flag is the discovery hypothesis of
+`analyze_of_tree_text_partial`, EVALUATED by the driver on this forest (so the statement is
+conditional on a computed intermediate result); the operation `marktree`
+(`C01marktext.markOp_sound`) has no such flag: its flags are conditions on the tree only. -/
 theorem treeOp_sound {L : Language} {p : Prog PTok} (hpy : L.python = false)
     (hg : (treeOp L p).good = true) :
     analyze L (treeOp L p).text (treeOp L p).raw
